@@ -41,7 +41,7 @@ class C10(Monitor):
                     self.fail('spurious-limit', 'TooManyStreamsError although the peer set no limit', s)
             return
         # inbound: a peer HEADERS that opens a stream
-        if s.snap['closed'] or len(s.units) != 1 or (not s.ok and s.trailing >= 9) or s.quirk:
+        if s.snap['closed'] or not s.exact or s.quirk:
             return
         f = s.units[0]
         if f.type != C.HEADERS or f.block_frames is None or f.bad or f.hpack_error:
